@@ -460,9 +460,61 @@ Definition do_again (cycles fuel : nat) (tk : T) (limit : option T) (tyme' : opt
     cycle_loop tk cycles fuel (set_rlive s1 true) lim stop
   end.
 
-(* Doist.ado differs from Doist.do only in how it waits between cycles
-   (await asyncio.sleep(0) instead of nothing); no model state is involved. *)
-Definition ado_run := do_run.
+(* ---------- Doist.ado ----------
+   In doing.py `ado` is a second, separately written copy of the body of `do`
+   (enter, limit Tymer, the cycle loop with its two stop tests, exit in the
+   finally clause) that awaits asyncio.sleep(0) after each pass.  The model keeps
+   it as a second, separately written definition as well, so that "ado gives the
+   same run as do" is a statement about two definitions (proved in
+   Proofs/SchedAdo.v) and the correspondence checks each against its own code. *)
+Definition await_sleep0 (s : st) : st := s.   (* other asyncio tasks run here; no scheduler state involved *)
+
+Fixpoint acycle_loop (tk : T) (cycles fuel : nat) (s : st) (limit : option T) (stop : T) : st :=
+  match cycles with
+  | O => out_of_fuel s
+  | S c =>
+    let '(s1, r) := recur_pass tk fuel s 0%N in
+    match r with
+    | GRaise true => emit (close_own tk fuel s1 0%N) DoReturn 0%N
+    | GRaise false => emit (close_own tk fuel s1 0%N) DoRaise 0%N
+    | GFuel => s1
+    | _ =>
+      let s2 := await_sleep0 (set_tyme s1 (tadd (tyme s1) tk)) in
+      match deeds (get_sched s2 0%N) with
+      | [] => emit (close_own tk fuel (set_done s2 0%N (Some true)) 0%N) DoReturn 0%N
+      | _ =>
+        let limited := match limit with Some l => negb (tfalsy l) | None => false end in
+        if limited && tleb stop (tyme s2)
+        then emit (close_own tk fuel s2 0%N) DoReturn 0%N
+        else acycle_loop tk c fuel s2 limit stop
+      end
+    end
+  end.
+
+Definition ado_run (cycles fuel : nat) (p : prog) : st :=
+  let s0 := init_st p in
+  let '(s1, r) := enter_own (p_tock p) fuel s0 0%N (p_doers p) in
+  match r with
+  | GRaise _ => emit (close_own (p_tock p) fuel s1 0%N) DoRaise 0%N
+  | GFuel => s1
+  | _ =>
+    let limit := option_map tabs (p_limit p) in
+    let stop := tadd (tyme s1) (match limit with Some l => l | None => tzero end) in
+    acycle_loop (p_tock p) cycles fuel (set_rlive s1 true) limit stop
+  end.
+
+Definition ado_again (cycles fuel : nat) (tk : T) (limit : option T) (tyme' : option T) (s : st) : st :=
+  let sa := match tyme' with Some t => set_tyme s t | None => s end in
+  let s0 := set_done (set_rlive sa false) 0%N (Some false) in
+  let '(s1, r) := enter_own tk fuel s0 0%N (doers (get_sched s0 0%N)) in
+  match r with
+  | GRaise _ => emit (close_own tk fuel s1 0%N) DoRaise 0%N
+  | GFuel => s1
+  | _ =>
+    let lim := option_map tabs limit in
+    let stop := tadd (tyme s1) (match lim with Some l => l | None => tzero end) in
+    acycle_loop tk cycles fuel (set_rlive s1 true) lim stop
+  end.
 
 End Sched.
 
